@@ -24,6 +24,7 @@ package driver
 //	Disconnect k=name x=error                         the proxy's disconnect callback
 //	Cancel                                            the proxy's context is cancelled
 //	Census    n=goat goroutines in the bubble x=tops  (after Cancel: must be 0)
+//	GatePark / GatePass k=gate                        the dispatcher is held / released (arm, rel steps)
 //	Quiesce                                           everything is durably blocked
 //	RCall     c=token k=kind x=client msg=server      an API-level call starts (then the events of client.go / svc.go)
 //	Pend      c=token k=op                            API operation still pending at Quiesce
@@ -69,6 +70,10 @@ type pxStep struct {
 	Hp   []HOp  `json:"hp,omitempty"`
 	H    *HOp   `json:"h,omitempty"`
 	N    int    `json:"n,omitempty"`
+	// holding the dispatcher (serveClients): gates "proxy.enqueue.window" (library hook right before the
+	// enqueue), "px.icpt" (the interceptor blocks), "px.cb" (the disconnect callback blocks)
+	Gate string `json:"gate,omitempty"`
+	Id   uint64 `json:"id,omitempty"`
 }
 
 type pxScenario struct {
@@ -164,6 +169,7 @@ type pxRt struct {
 	slow     map[string]chan struct{} // slow dials waiting for their release
 	reattach map[string]int           // name -> connection number to attach in the disconnect callback
 	unwound  bool
+	g        *gateTab // holds the dispatcher: arm / rel steps, GatePark / GatePass events
 
 	// rpc mode
 	w     *world
@@ -200,6 +206,7 @@ func (rt *pxRt) hookEmit(name string, obj any, id uint64, n int, s string) {
 }
 
 func (rt *pxRt) intercept(h *goatorepo.RequestHeader) error {
+	rt.g.gate("px.icpt", nil, 0) // application code that takes its time (arm step)
 	switch rt.sc.Icpt.Kind {
 	case "rw":
 		if h.Destination == rt.sc.Icpt.From {
@@ -260,6 +267,7 @@ func (rt *pxRt) onDisconnect(id string, reason error) {
 		e.X = tok([]byte(reason.Error()))
 	}
 	tr.emit(e)
+	rt.g.gate("px.cb", nil, 0) // application code that takes its time (arm step)
 	rt.mu.Lock()
 	hn, ok := rt.reattach[id]
 	delete(rt.reattach, id)
@@ -314,7 +322,19 @@ func (rt *pxRt) srvName(s *goat.Server) string {
 func (rt *pxRt) step(st pxStep) {
 	switch st.Op {
 	case "attach":
-		rt.attach(st.Name, st.Conn)
+		c := rt.attach(st.Name, st.Conn)
+		if rt.sc.Mode == "rpc" { // a server (re)starts and attaches again under its name
+			for _, s := range rt.srvs {
+				if rt.srvName(s) == st.Name {
+					rt.serveOn(c)
+					break
+				}
+			}
+		}
+	case "arm":
+		rt.g.arm(st.Gate, st.Id, st.N)
+	case "rel":
+		rt.g.release(st.Gate, st.Id)
 	case "reattach_cb": // attach connection Conn under Name inside the next disconnect callback for Name
 		rt.mu.Lock()
 		rt.reattach[st.Name] = st.Conn
@@ -436,6 +456,7 @@ func (rt *pxRt) unwind() {
 	tr.emit(ev("Unwind"))
 	rt.mu.Lock()
 	rt.unwound = true
+	rt.g.releaseAll()
 	for k, ch := range rt.slow {
 		close(ch)
 		delete(rt.slow, k)
@@ -509,13 +530,13 @@ func runProxy(t *testing.T, sc *Scenario, raw []byte) {
 	}
 	synctest.Test(t, func(t *testing.T) {
 		rt := &pxRt{sc: &ps, conns: map[int]*pxConn{}, dialed: map[string]*pxConn{}, slow: map[string]chan struct{}{},
-			reattach: map[string]int{}, clis: map[string]*goat.ClientConn{}, calls: map[int]*call{}}
+			reattach: map[string]int{}, g: &gateTab{armed: map[string][]*armed{}}, clis: map[string]*goat.ClientConn{}, calls: map[int]*call{}}
 		rt.root, rt.cancel = context.WithCancel(context.Background())
 		rt.pctx, rt.pcancel = context.WithCancel(rt.root)
 		tr.mu.Lock()
 		tr.start = time.Now()
 		tr.mu.Unlock()
-		verifhook.Install(&verifhook.Hooks{Emit: rt.hookEmit, Gate: func(string, any, uint64) {}})
+		verifhook.Install(&verifhook.Hooks{Emit: rt.hookEmit, Gate: rt.g.gate})
 		b := ev("Begin")
 		b.K, b.X, b.Msg, b.N = sc.Fam, ps.Mode, ps.Px, 1
 		b.Md = []KV{{K: "icpt", V: []string{ps.Icpt.Kind, ps.Icpt.From, ps.Icpt.To}}}
